@@ -216,13 +216,13 @@ class _InlineMethods:
                 try:
                     out += self._expand(st, call, target, host, methods[call.func.attr], has_recv=not self._is_static(methods[call.func.attr]))
                     continue
-                except ValueError:
+                except Exception:       # any shape the expander does not handle: the call is left as it is
                     pass
             elif call is not None and isinstance(call.func, ast.Name) and call.func.id in self.module_funcs and self._eligible(host, self.module_funcs[call.func.id]):
                 try:
                     out += self._expand(st, call, target, host, self.module_funcs[call.func.id], has_recv=False)
                     continue
-                except ValueError:
+                except Exception:       # any shape the expander does not handle: the call is left as it is
                     pass
             out.append(st)
         return out
